@@ -203,6 +203,9 @@ type c11Chunk struct {
 	DictOff, DataOff     int64
 	TotalC, TotalU       int64
 	Locs                 [][3]int64 // offset, compressed size, first row index
+	// value-carrying metadata (column index, size statistics, statistics, encoding statistics) in
+	// the text of the `copy.splicev` op (SpliceMeta.lean)
+	Values               string
 }
 
 func (p c11Page) trivial() bool { return !p.NullPage && p.NullCount == 0 && p.MinLen == 0 && p.MaxLen == 0 }
@@ -249,6 +252,9 @@ func c11FileInfo(file []byte, f *parquet.File) (out [][]c11Chunk, err error) {
 					_, unc := h.Compression.Value.(*format.BloomFilterUncompressed)
 					c.BloomHdr = &[4]int{int(h.NumBytes), b2i(split), b2i(xx), b2i(unc)}
 				}
+			}
+			if k < len(cis) {
+				c.Values = c11Values(m, &cis[k])
 			}
 			if k < len(ois) && k < len(cis) {
 				cix := &cis[k]
@@ -912,10 +918,10 @@ func c11SpliceL2(ctx *core.Ctx, env *c11Env, d interface {
 					bl = int64(src.BloomLen)
 				}
 			}
-			req = append(req, src.layoutText(bl, true))
-			want = append(want, og[ci].layoutText(0, false))
+			req = append(req, src.layoutText(bl, true)+"~"+src.Values)
+			want = append(want, og[ci].layoutText(0, false)+"~"+og[ci].Values)
 			if c.b.DeferBloom {
-				req[len(req)-1] = src.layoutText(0, true) // written by writeDeferredBloomFilters at the end of the file
+				req[len(req)-1] = src.layoutText(0, true) + "~" + src.Values // written by writeDeferredBloomFilters at the end of the file
 				blooms = append(blooms, "n")
 			} else if og[ci].BloomOff != 0 {
 				blooms = append(blooms, fmt.Sprintf("%d.%d", og[ci].BloomOff, og[ci].BloomLen))
@@ -923,7 +929,7 @@ func c11SpliceL2(ctx *core.Ctx, env *c11Env, d interface {
 				blooms = append(blooms, "n")
 			}
 		}
-		reqs = append(reqs, fmt.Sprintf("copy.splice %d %s", start, strings.Join(req, ";")))
+		reqs = append(reqs, fmt.Sprintf("copy.splicev %d %s", start, strings.Join(req, ";")))
 		wants = append(wants, "ok "+strings.Join(want, ";")+" "+strings.Join(blooms, ","))
 	}
 	if len(reqs) == 0 {
@@ -937,10 +943,28 @@ func c11SpliceL2(ctx *core.Ctx, env *c11Env, d interface {
 	for i, a := range ans {
 		ctx.Hist("splice-mirror-compared", "row-group")
 		if a != wants[i] {
-			ctx.Fail("L2", "splice-metadata-vs-mirror", "the metadata of a spliced row group differs from the Lean splice of the source's metadata",
-				detail(map[string]any{"request": reqs[i], "model": a, "library": wants[i]}))
+			key, what := "splice-metadata-vs-mirror", "the metadata of a spliced row group differs from the Lean splice of the source's metadata"
+			if c11LayoutOnly(a) == c11LayoutOnly(wants[i]) {
+				key, what = "splice-values-vs-mirror", "the column index / size statistics / statistics / encoding statistics of a spliced row group differ from the Lean splice (SpliceMeta.spliceRowGroupBlooms) of the source's"
+			}
+			ctx.Fail("L2", key, what, detail(map[string]any{"request": reqs[i], "model": a, "library": wants[i]}))
 		}
 	}
+}
+
+// c11LayoutOnly strips the value parts (`~...`) of a `copy.splicev` answer
+func c11LayoutOnly(ans string) string {
+	f := strings.Fields(ans)
+	if len(f) != 3 {
+		return ans
+	}
+	chunks := strings.Split(f[1], ";")
+	for i, c := range chunks {
+		if j := strings.IndexByte(c, '~'); j >= 0 {
+			chunks[i] = c[:j]
+		}
+	}
+	return f[0] + " " + strings.Join(chunks, ";") + " " + f[2]
 }
 
 // c11Split: the row groups n buffered rows are flushed as
@@ -1284,6 +1308,33 @@ func c11Run(ctx *core.Ctx, env *c11Env, d interface {
 	if err1 != nil || err2 != nil {
 		ctx.Fail("L1", "output-unopenable "+sig, fmt.Sprintf("OpenFile failed: %v %v", err1, err2), detail(nil))
 		return
+	}
+	// ---- L1d: the page index and the statistics of the output describe the pages it holds
+	// (parquet.thrift OffsetIndex / ColumnIndex / Statistics / SizeStatistics), as far as they do
+	// in the file written row by row
+	{
+		px := map[string]any{"copied_chunks": out.copyN, "reencoded_row_groups": out.reencN}
+		viol, derr := c11DescribeOracle(fo)
+		if derr != nil || len(viol) > 0 {
+			refViol, rerr := c11DescribeOracle(fr)
+			switch {
+			case rerr != nil:
+				ctx.Hist("row-path-file-pages-unreadable-too", c.kind)
+			case derr != nil:
+				ctx.Fail("L1", "output-pages-unreadable "+pathSig+" "+errClass(derr), "the pages of the file written through WriteRowGroup cannot be read one after the other: "+derr.Error(), detail(px))
+			default:
+				for _, aspect := range sortedKeys(viol) {
+					if _, too := refViol[aspect]; too {
+						ctx.Hist("metadata-does-not-describe-pages-on-row-path-too", aspect) // not specific to WriteRowGroup (C05)
+						continue
+					}
+					px["violated"] = viol[aspect]
+					ctx.Fail("L1", "metadata-does-not-describe-pages "+aspect+" "+pathSig,
+						"the metadata of a file written through WriteRowGroup does not describe the pages the file holds (it does in the file written row by row): "+viol[aspect], detail(px))
+				}
+			}
+		}
+		ctx.Hist("metadata-describes-pages-checked", pathSig)
 	}
 	outInfo, err1 := c11FileInfo(out.file, fo)
 	refInfo, err2 := c11FileInfo(ref, fr)
